@@ -286,7 +286,7 @@ func (sess *hopSession) startCodex(t1, t2 *tubes.Reliable) {
 		} else {
 			f, err = pty.Start(c)
 		}
-		sess.pty <- f
+		sess.offerPty(f)
 		if err != nil {
 			logrus.Errorf("S: error starting pty %v", err)
 			codex.SendFailure(stdoutTube, err)
@@ -294,7 +294,7 @@ func (sess *hopSession) startCodex(t1, t2 *tubes.Reliable) {
 		}
 	} else {
 		// Signal nil to sess.pty so that window sizes don't indefinitely buffer
-		sess.pty <- nil
+		sess.offerPty(nil)
 		c.Stdin = stdinTube
 		c.Stdout = stdoutTube
 		c.Stderr = stdoutTube
@@ -325,6 +325,17 @@ func (sess *hopSession) startCodex(t1, t2 *tubes.Reliable) {
 			logrus.Info("signaling done")
 			sess.close()
 		}()
+	}
+}
+
+// offerPty hands the pty (nil for a command without one) to the window-size
+// reader. The slot holds one entry; a further execution request on the same
+// session must not wait for it, least of all under the server-wide principal
+// lock its caller holds.
+func (sess *hopSession) offerPty(f *os.File) {
+	select {
+	case sess.pty <- f:
+	default:
 	}
 }
 
